@@ -9,8 +9,9 @@ From PV Require Import Stats.Model Stats.Inv Stats.Proofs.
 Import ListNotations.
 
 (** SHOW CLIENTS / SHOW SERVERS list exactly the clients whose task is inside [handle()] and exactly
-    the live server connections, each once — in every history in which no client task panicked. *)
-Theorem c18_registry_exact : forall cf ops, known_c18 ops = false ->
+    the live server connections, each once — in EVERY history, however the clients left (clean exit,
+    error, panic: since /repo ca5e3a4 [Drop for Client] unregisters). *)
+Theorem c18_registry_exact : forall cf ops,
   let t := run cf ops in
   (forall c, In c (creg t) <-> c_phase (cl t c) = PHandle) /\
   (forall s, In s (sreg t) <-> s_live (sv t s) = true) /\
@@ -18,17 +19,8 @@ Theorem c18_registry_exact : forall cf ops, known_c18 ops = false ->
 Proof. exact registry_exact. Qed.
 Print Assumptions c18_registry_exact.
 
-(** The server half, the "each once" half and "every connected client is listed" hold in every
-    history, panics included. *)
-Theorem c18_servers_exact : forall cf ops,
-  let t := run cf ops in
-  (forall s, In s (sreg t) <-> s_live (sv t s) = true) /\ NoDup (sreg t) /\ NoDup (creg t) /\
-  (forall c, c_phase (cl t c) = PHandle -> In c (creg t)).
-Proof. exact servers_exact. Qed.
-Print Assumptions c18_servers_exact.
-
 (** SHOW POOLS: idle + active + waiting = number of clients connected to the pool. *)
-Theorem c18_pool_sum : forall cf ops p, known_c18 ops = false ->
+Theorem c18_pool_sum : forall cf ops p,
   let t := run cf ops in let r := show_pools cf t p in
   cl_idle r + cl_active r + cl_waiting r = length (clients_of t p).
 Proof. exact pool_sum. Qed.
@@ -49,16 +41,23 @@ Theorem c18_true_state : forall cf ops,
 Proof. exact true_state. Qed.
 Print Assumptions c18_true_state.
 
-(** ... and waiting is shown for the WHOLE checkout unless a candidate failure reset the state. *)
-Theorem c18_waiting_exact : forall cf ops, known_c18_wait cf ops = false ->
+(** ... and waiting is shown for as long as the client is blocked on a candidate server inside
+    [pool.get] ([c_iter]: since /repo b38aae6 every iteration of the candidate loop starts with
+    [waiting()]), and never outside [pool.get].  The positions inside [pool.get] but outside an
+    iteration (between a failed candidate and the next [waiting()], or the final [checkout_error()])
+    are not blocking points. *)
+Theorem c18_waiting_exact : forall cf ops,
   let t := run cf ops in
-  forall c, c_phase (cl t c) = PHandle -> (c_state (cl t c) = CWaiting <-> c_chk (cl t c) = true).
+  forall c, c_phase (cl t c) = PHandle ->
+    (c_iter (cl t c) = true -> c_state (cl t c) = CWaiting) /\
+    (c_state (cl t c) = CWaiting -> c_chk (cl t c) = true) /\
+    (c_iter (cl t c) = true -> c_chk (cl t c) = true).
 Proof. exact waiting_exact. Qed.
 Print Assumptions c18_waiting_exact.
 
-(** When every client has gone — however it left, short of a panic — nothing is left: no client row,
-    zero clients in every pool, no active server. *)
-Theorem c18_zero_when_gone : forall cf ops, known_c18 ops = false ->
+(** When every client has gone — however it left — nothing is left: no client row, zero clients in
+    every pool, no active server. *)
+Theorem c18_zero_when_gone : forall cf ops,
   let t := run cf ops in
   (forall c, c_phase (cl t c) <> PHandle) ->
   creg t = [] /\
@@ -97,32 +96,38 @@ Theorem c18_monotone : forall cf ops more,
 Proof. exact monotone. Qed.
 Print Assumptions c18_monotone.
 
-(** The only way a client row outlives its client is a panic of that client's task. *)
-Theorem c18_only_panic_leaks : forall cf ops c,
-  In c (creg (run cf ops)) -> c_phase (cl (run cf ops) c) <> PHandle -> In (ExitPanic c) (trace cf ops).
-Proof. exact only_panic_leaks. Qed.
-Print Assumptions c18_only_panic_leaks.
+(** Regression (former defect F31, repaired by /repo ca5e3a4): a client task that panics is removed
+    from the registry like any other exit ... *)
+Theorem c18_panic_row_removed :
+  let t := run cf_w panic_w in
+  creg t = [] /\ c_phase (cl t 1) = PGone /\ cl_idle (show_pools cf_w t 1) = 0 /\ trace cf_w panic_w = panic_w.
+Proof. exact panic_row_removed. Qed.
+Print Assumptions c18_panic_row_removed.
 
-(** Known defect class [known_c18]: a client task that panics never unregisters; its row stays, the
-    pool's client count is off by one for ever. *)
-Theorem c18_panic_leaks_row_refuted :
-  exists cf ops, known_c18 ops = true /\
-    let t := run cf ops in
-    exists c, In c (creg t) /\ c_phase (cl t c) = PGone /\
-              cl_idle (show_pools cf t 1) = 1 /\ length (clients_of t 1) = 0.
-Proof. exact panic_leaks_row. Qed.
-Print Assumptions c18_panic_leaks_row_refuted.
+(** ... whereas the code before the repair ([exit_panic_old]: no [disconnect()] on a panic) kept the row and
+    over-counted the pool for ever: the wire tie tells the two apart on every panic history. *)
+Theorem c18_old_panic_leaked_row :
+  let t := exit_panic_old (run cf_w [Login 1 1 true; HandleStart 1]) 1 in
+  In 1 (creg t) /\ c_phase (cl t 1) = PGone /\ cl_idle (show_pools cf_w t 1) = 1 /\ length (clients_of t 1) = 0.
+Proof. exact old_panic_leaked_row. Qed.
+Print Assumptions c18_old_panic_leaked_row.
 
-(** Known defect class [known_c18_wait]: after a candidate server failed (bb8 checkout error, or a
-    replica's failed health check) the client is shown idle while it goes on waiting for the next
-    candidate. *)
-Theorem c18_waiting_shown_idle_refuted :
-  exists cf ops, known_c18_wait cf ops = true /\ known_c18 ops = false /\
-    let t := run cf ops in
-    exists c, c_phase (cl t c) = PHandle /\ c_chk (cl t c) = true /\ c_state (cl t c) = CIdle /\
-              cl_waiting (show_pools cf t 1) = 0 /\ cl_idle (show_pools cf t 1) = 1.
-Proof. exact waiting_shown_idle. Qed.
-Print Assumptions c18_waiting_shown_idle_refuted.
+(** Regression (former defect F32, repaired by /repo b38aae6): after a failed candidate the client that
+    tries its next candidate is shown waiting (and carries the replica's ban error) ... *)
+Theorem c18_retry_is_waiting :
+  let t := run cf_w retry_w in
+  c_iter (cl t 1) = true /\ c_state (cl t 1) = CWaiting /\ c_err (cl t 1) = 1 /\
+  cl_waiting (show_pools cf_w t 1) = 1 /\ cl_idle (show_pools cf_w t 1) = 0 /\ trace cf_w retry_w = retry_w.
+Proof. exact retry_is_waiting. Qed.
+Print Assumptions c18_retry_is_waiting.
+
+(** ... whereas the code before the repair ([candidate_try_old]: no [waiting()] inside the loop) showed it idle. *)
+Theorem c18_old_retry_shown_idle :
+  let t := candidate_try_old (run cf_w (firstn 5 retry_w)) 1 in
+  c_iter (cl t 1) = true /\ c_state (cl t 1) = CIdle /\
+  cl_waiting (show_pools cf_w t 1) = 0 /\ cl_idle (show_pools cf_w t 1) = 1.
+Proof. exact old_retry_shown_idle. Qed.
+Print Assumptions c18_old_retry_shown_idle.
 
 (* ------------------------------------------------------------------ non-vacuity / model validation *)
 
@@ -131,13 +136,13 @@ Print Assumptions c18_waiting_shown_idle_refuted.
     afterwards, then both leave (one cleanly, one by closing the socket). *)
 Definition demo : list op :=
   [Login 1 1 true; HandleStart 1; Login 2 1 true; HandleStart 2;
-   CheckoutStart 1; ServerConnect 7 0; ServerReady 7; CheckoutOk 1 7;
+   CheckoutStart 1; ServerConnect 7 0; ServerReady 7; CandidateTry 1; CheckoutOk 1 7;
    QueryDone 1 7; QueryDone 1 7; QueryDone 1 7; TxnDone 1 7; Release 1 7;
-   CheckoutStart 2; CheckoutOk 2 7; QueryDone 2 7; TxnDone 2 7; Release 2 7;
+   CheckoutStart 2; CandidateTry 2; CheckoutOk 2 7; QueryDone 2 7; TxnDone 2 7; Release 2 7;
    ExitOk 1; ExitErr 2 false].
 
 Example demo_mid :
-  observe cf_w 1 (run cf_w (firstn 9 demo)) =
+  observe cf_w 1 (run cf_w (firstn 10 demo)) =
   ([[2; 1; 0; 0; 0; 0]; [1; 1; 2; 0; 1; 0]], [[7; 0; 1; 2; 0; 1; 0; 0]], [[1; 1; 1; 0; 1; 0; 0; 0]], [1; 1; 0; 1],
    [[0; 0; 1; 0; 0; 0]; [1; 0; 0; 0; 0; 0]]).
 Proof. vm_compute. reflexivity. Qed.
@@ -145,13 +150,13 @@ Proof. vm_compute. reflexivity. Qed.
 Example demo_end :
   observe cf_w 1 (run cf_w demo) =
   ([], [[7; 0; 3; 0; 2; 4; 0; 0]], [[1; 0; 0; 0; 0; 1; 0; 0]], [0; 0; 1; 0], [[0; 2; 4; 0; 0; 0]; [1; 0; 0; 0; 0; 0]])
-  /\ trace cf_w demo = demo /\ known_c18 demo = false /\ known_c18_wait cf_w demo = false.
+  /\ trace cf_w demo = demo.
 Proof. vm_compute. repeat split. Qed.
 
 (** Ops whose call site is not reachable are ignored (a second HandleStart, a query without a server,
-    a drop of a held connection). *)
+    a CheckoutOk outside a loop iteration, a drop of a held connection). *)
 Example disabled_ops_ignored :
   trace cf_w [Login 1 1 true; HandleStart 1; HandleStart 1; QueryDone 1 7; ServerConnect 7 0; ServerReady 7;
-              CheckoutStart 1; CheckoutOk 1 7; ServerDrop 7; Login 1 1 true] =
-  [Login 1 1 true; HandleStart 1; ServerConnect 7 0; ServerReady 7; CheckoutStart 1; CheckoutOk 1 7].
+              CheckoutStart 1; CheckoutOk 1 7; CandidateTry 1; CheckoutOk 1 7; ServerDrop 7; Login 1 1 true] =
+  [Login 1 1 true; HandleStart 1; ServerConnect 7 0; ServerReady 7; CheckoutStart 1; CandidateTry 1; CheckoutOk 1 7].
 Proof. vm_compute. reflexivity. Qed.
